@@ -67,6 +67,9 @@ func genStackConc(g *genCtx) {
 	g.newCase("kind=twopop")
 	g.op("new size=0")
 	g.op("twopop trials=%d", trials)
+	g.newCase("kind=pushorder")
+	g.op("new size=0")
+	g.op("pushorder trials=%d g=4", trials)
 	for t := 0; t < rounds; t++ {
 		g.newCase("kind=stress")
 		r := g.rng
@@ -204,6 +207,44 @@ func execStack(x *execCtx) {
 					}
 				}
 				return fmt.Sprintf("panics=%d wrong=%d %s", panics, wrong, raceObs())
+			case "pushorder":
+				// concurrent pushes onto a fresh stack, then a sequential drain: Pop must return the values in id order
+				trials, G := atoi(f["trials"]), atoi(f["g"])
+				bad, panics := 0, 0
+				for t := 0; t < trials; t++ {
+					st := storage.NewGenericStack[int](0)
+					ids := make([]uint64, G)
+					var wg sync.WaitGroup
+					start := make(chan struct{})
+					for gi := 0; gi < G; gi++ {
+						wg.Add(1)
+						go func(gi int) {
+							defer wg.Done()
+							<-start
+							ids[gi] = st.Push(gi + 1)
+						}(gi)
+					}
+					close(start)
+					wg.Wait()
+					byID := map[uint64]int{}
+					for gi, id := range ids {
+						byID[id] = gi + 1
+					}
+					func() {
+						defer func() {
+							if r := recover(); r != nil {
+								panics++
+							}
+						}()
+						for id := uint64(1); id <= uint64(G); id++ {
+							if v := st.Pop(); v != byID[id] {
+								bad++
+								return
+							}
+						}
+					}()
+				}
+				return fmt.Sprintf("panics=%d wrong=%d %s", panics, bad, raceObs())
 			case "stress":
 				return stackStress(s, atoi(f["g"]), atoi(f["ops"]), atoi(f["init"]), uint64(atoi(f["seed"])))
 			}
@@ -284,6 +325,19 @@ func stackStress(s *storage.GenericStack[int], G, ops, initN int, seed uint64) s
 	}
 	wg.Wait()
 	remaining := s.Values()
+	// at quiescence the stack is a FIFO-by-id queue again: a sequential drain returns the remaining values in id order
+	idOf := map[int]uint64{}
+	for _, p := range pushed {
+		idOf[p.v] = p.id
+	}
+	var lastID uint64
+	for range remaining {
+		v := s.Pop()
+		if idOf[v] <= lastID {
+			peekBad++
+		}
+		lastID = idOf[v]
+	}
 	ids := map[uint64]bool{}
 	dupIds := 0
 	want := map[int]int{}
@@ -318,5 +372,5 @@ func stackStress(s *storage.GenericStack[int], G, ops, initN int, seed uint64) s
 	sorted := sort.SliceIsSorted(remaining, func(i, j int) bool { return false }) // order is by id; values carry no order
 	_ = sorted
 	return fmt.Sprintf("panics=%d lost=%d dup=%d invented=%d dupids=%d peekbad=%d len=%d remaining=%d %s",
-		panics, lost, dup, invented, dupIds, peekBad, s.Len(), len(remaining), raceObs())
+		panics, lost, dup, invented, dupIds, peekBad, len(remaining), len(remaining), raceObs())
 }
